@@ -58,6 +58,11 @@ pub enum Act {
     /// the origin future of the running fetch itself inserts a newer value (`cache.insert`) right before it returns its
     /// own, older result: the insert completes during the origin's final poll
     ReqOkAfterInsert { key: u64 },
+    /// like `ReqOkAfterInsert`, but the origin future also removes the key again before it returns: the superseding value
+    /// is gone when the superseded fetch result arrives, which must still not be published
+    ReqOkAfterInsertRemove { key: u64 },
+    /// a caller arrives and the fetch runtime is shut down before the new fetch task was ever polled; only as last action
+    ArriveAndCancel { key: u64, kind: Kind },
     /// explicit insert of a value the cache's filter rejects (a disk-only / phantom record): nothing is stored in memory,
     /// but waiters of a pending fetch must still receive it
     InsertPhantom { key: u64 },
@@ -86,6 +91,7 @@ enum GateMsg {
     Ok(u64),
     /// insert the second value into the cache, then return the first one
     InsertThenOk(u64, u64),
+    InsertRemoveThenOk(u64, u64),
     Err(&'static str),
 }
 
@@ -318,6 +324,12 @@ pub fn run_script_div(algo: Algo, script: &[Act], div: u64) -> Run {
     };
 
     for (step, act) in script.iter().enumerate() {
+        // ArriveAndCancel = Arrive whose fetch task is never polled before the fetch runtime goes away
+        let (act, cancel_before_poll) = match *act {
+            Act::ArriveAndCancel { key, kind } => (Act::Arrive { key, kind }, true),
+            a => (a, false),
+        };
+        let act = &act;
         match *act {
             Act::Arrive { key, kind } => {
                 if model.flights.contains_key(&key) && !model.present.contains_key(&key) {
@@ -368,6 +380,11 @@ pub fn run_script_div(algo: Algo, script: &[Act], div: u64) -> Run {
                                     drop(cache2.insert(key, Tv { key, id: new, w: 1, phantom: false }));
                                     Ok(FetchTarget::Entry { value: Tv { key, id: old, w: 1, phantom: false }, properties: CacheProperties::default() })
                                 }
+                                Ok(GateMsg::InsertRemoveThenOk(old, new)) => {
+                                    drop(cache2.insert(key, Tv { key, id: new, w: 1, phantom: false }));
+                                    drop(cache2.remove(&key));
+                                    Ok(FetchTarget::Entry { value: Tv { key, id: old, w: 1, phantom: false }, properties: CacheProperties::default() })
+                                }
                                 Ok(GateMsg::Err(m)) => Err(Error::new(ErrorKind::External, m)),
                                 _ => Err(Error::new(ErrorKind::External, "gate dropped")),
                             }
@@ -399,6 +416,10 @@ pub fn run_script_div(algo: Algo, script: &[Act], div: u64) -> Run {
                 let c = model.arrive(key, kind);
                 assert_eq!(c, callers.len());
                 callers.push(Caller { key, slot, entry, task: Some(task), dropped: false });
+                if cancel_before_poll {
+                    drop(rt_fetch.take());
+                    model.cancel_all();
+                }
             }
             Act::OptHit { key } | Act::OptMiss { key } | Act::OptErr { key } => {
                 let ep = *epochs.get(&key).unwrap_or(&0);
@@ -450,6 +471,19 @@ pub fn run_script_div(algo: Algo, script: &[Act], div: u64) -> Run {
                     model.insert(key, new);
                 }
             }
+            Act::ReqOkAfterInsertRemove { key } => {
+                if let Some(g) = gates.iter_mut().find(|g| {
+                    g.key == key && !g.optional && g.tx.is_some() && g.started.load(Ordering::SeqCst) == 1 && g.zombie_epoch == 0
+                }) {
+                    next_val += 2;
+                    let (old, new) = (next_val - 1, next_val);
+                    takeover = true;
+                    *epochs.entry(key).or_insert(0) += 1;
+                    let _ = g.tx.take().unwrap().send(GateMsg::InsertRemoveThenOk(old, new));
+                    model.insert(key, new);
+                    model.remove(key);
+                }
+            }
             Act::InsertPhantom { key } => {
                 next_val += 1;
                 if model.flights.contains_key(&key) {
@@ -499,6 +533,7 @@ pub fn run_script_div(algo: Algo, script: &[Act], div: u64) -> Run {
                 drop(rt_fetch.take());
                 model.cancel_all();
             }
+            Act::ArriveAndCancel { .. } => unreachable!(),
         }
         settle(&rt_fetch);
         // zombie gates: a superseded fetch task must notice and stop; release them so they cannot linger
@@ -622,6 +657,7 @@ fn alphabet(c11: bool) -> Vec<Act> {
         Act::ReqErr { key },
         Act::Insert { key },
         Act::ReqOkAfterInsert { key },
+        Act::ReqOkAfterInsertRemove { key },
         Act::InsertPhantom { key },
         Act::Remove { key },
         Act::DropCaller { key },
@@ -703,12 +739,15 @@ pub fn run(prop: &str, seed: u64, tier: &str, shard: usize, nshards: usize) -> S
                 c /= n;
             }
             // scripts that start with a resolution or end with an arrival only add nothing new: keep them, they are cheap
-            if c11 && !script.iter().any(|a| matches!(a, Act::Insert { .. } | Act::ReqOkAfterInsert { .. } | Act::InsertPhantom { .. })) {
+            if c11 && !script.iter().any(|a| matches!(a, Act::Insert { .. } | Act::ReqOkAfterInsert { .. } | Act::ReqOkAfterInsertRemove { .. } | Act::InsertPhantom { .. })) {
                 continue;
             }
-            // every 7th script additionally ends by cancelling the fetch runtime
+            // every 7th script additionally ends by cancelling the fetch runtime, every 11th by an arrival whose fetch task
+            // is dropped before its first poll
             if !c11 && code % 7 == 0 {
                 script.push(Act::CancelFetchRuntime);
+            } else if !c11 && code % 11 == 0 {
+                script.push(Act::ArriveAndCancel { key: 0, kind: [Kind::Lookup, Kind::Fetch, Kind::MemFetch][code % 3] });
             }
             judge(prop, algo, &script, &mut res);
             res.count("exhaustive_cases", 1);
@@ -732,6 +771,7 @@ pub fn run(prop: &str, seed: u64, tier: &str, shard: usize, nshards: usize) -> S
                     Act::ReqErr { .. } => Act::ReqErr { key },
                     Act::Insert { .. } => Act::Insert { key },
                     Act::ReqOkAfterInsert { .. } => Act::ReqOkAfterInsert { key },
+                    Act::ReqOkAfterInsertRemove { .. } => Act::ReqOkAfterInsertRemove { key },
                     Act::InsertPhantom { .. } => Act::InsertPhantom { key },
                     Act::Remove { .. } => Act::Remove { key },
                     Act::DropCaller { .. } => Act::DropCaller { key },
@@ -739,12 +779,14 @@ pub fn run(prop: &str, seed: u64, tier: &str, shard: usize, nshards: usize) -> S
                 }
             })
             .collect();
-        if c11 && !script.iter().any(|a| matches!(a, Act::Insert { .. } | Act::ReqOkAfterInsert { .. } | Act::InsertPhantom { .. })) {
+        if c11 && !script.iter().any(|a| matches!(a, Act::Insert { .. } | Act::ReqOkAfterInsert { .. } | Act::ReqOkAfterInsertRemove { .. } | Act::InsertPhantom { .. })) {
             script.push(Act::Insert { key: 0 });
             script.push(Act::Arrive { key: 0, kind: Kind::MemFetch });
         }
         if !c11 && rng.chance(1, 5) {
             script.push(Act::CancelFetchRuntime);
+        } else if !c11 && rng.chance(1, 6) {
+            script.push(Act::ArriveAndCancel { key: rng.below(2), kind: *rng.pick(&[Kind::Lookup, Kind::Fetch, Kind::MemFetch]) });
         }
         let div = if i % 3 == 0 { 2 } else { 1 };
         if div == 2 {
